@@ -44,6 +44,8 @@ impl<L: Language, N: Analysis<L>> EGraph<L, N> {
             let pc = self.pc_find(&self.refl_pc(c));
 
             self.handle_congruence(pc);
+            // the union may have moved e-nodes (pending work): callers expect a rebuilt e-graph.
+            self.rebuild();
 
             let c_a = self.mk_syn_applied_id(c, fresh_to_old.clone());
             if CHECKS {
